@@ -383,7 +383,7 @@ ctxs = st.one_of(st.none(), st.dictionaries(st.sampled_from(["a", "b"]),
                  st.just({"variable": {"name": "e", "type": "energy", "energy": {"name": "e"}}, "a": 1}))
 
 pre_el = st.one_of(st.just(["mut"]), st.just(["getw"]), st.just(["varw"]), st.just(["filt"]),
-                   st.builds(lambda k: ["slice", k], st.integers(0, 3)), st.just(["mut"]), st.just(["getw"]),
+                   st.builds(lambda k: ["slice", k], st.integers(0, 3)), st.builds(lambda k: ["slice", k], st.integers(0, 2)), st.just(["mut"]), st.just(["getw"]),
                    st.builds(lambda n, w: ["raise", n, w], st.sampled_from(sorted(EXC)), st.integers(0, 9)))
 acc_el = st.one_of(st.just(["wsum"]), st.just(["count"]), st.just(["store"]), st.just(["store1"]),
                    st.builds(lambda n: ["uacc", n], st.integers(0, 3)), st.just(["wsum"]))
@@ -798,7 +798,7 @@ def judge_mesh(case):
 
 
 CHECKS = [
-    Check("split_into_bins", judge_sib, strategy=lambda tier: sib_case(), quick=4000, thorough=40000,
+    Check("split_into_bins", judge_sib, strategy=lambda tier: sib_case(), quick=7000, thorough=40000,
           rule="edges (ints, floats, lena-style meshes with negative lower parts; <= 6 per axis) x 0-20 values whose coordinates are edges, their float neighbours, midpoints, far outside, +-5e-324 x analyses of 0-3 pre-elements "
                "(in-place context mutator, getter, typed Variable, Filter, Slice) + accumulator (sum, count, store, per-value store, 0-3 results) + optional post element, bare or as sequence; every fill under a step budget. "
                "Non-trivial = >= 2 cells filled with a border and an outside value, or a context-mutating pre-element."),
